@@ -91,9 +91,74 @@ TrRT ==
   /\ gh' = Put(gh, Ev.to, gh[Ev.id])
   /\ On("C11") => (Ev.same /\ Ev.eq)
 
+\* merge() offered a sketch of another shape or seed (same or different number of cells): refused
+TrMergeTry ==
+  /\ IsEv("CMergeTry")
+  /\ On("C08") => Ev.accepted = MergeAccepts(Ev.a[1], Ev.a[2], Ev.a[3], Ev.b[1], Ev.b[2], Ev.b[3])
+  /\ UNCHANGED <<obj, gh>>
+
+(* ---- u64 / i64 instances with quantities above 2^31 (up to 2^64): limbs, see Wide.tla ---- *)
+Lm(x) == [i \in 1..4 |-> x[i]]
+WGet(t, id) == IF id \in DOMAIN t THEN t[id] ELSE W!WZero
+Val8W(x) == [i \in 1..8 |-> IF i % 2 = 1 THEN x[(i + 1) \div 2] % 256 ELSE x[i \div 2] \div 256]
+EncCMW(st, sh) ==
+  LET empty == st.total = W!WZero IN
+  <<2, 1, 18, IF empty THEN 1 ELSE 0, 0, 0, 0, 0>> \o LE(st.w, 4) \o <<st.d>> \o sh \o <<0>>
+  \o (IF empty THEN <<>>
+      ELSE Val8W(st.total) \o [i \in 1..(8 * st.d * st.w) |-> Val8W(st.tab[(i - 1) \div 8])[((i - 1) % 8) + 1]])
+
+TrWNew ==
+  /\ IsEv("WNew")
+  /\ obj' = Put(obj, Ev.id, NewCMW(Ev.d, Ev.w))
+  /\ gh' = Put(gh, Ev.id, [truth |-> <<>>, bk |-> <<>>])
+
+TrWUpd ==
+  /\ IsEv("WUpd")
+  /\ obj' = [obj EXCEPT ![Ev.id] = UpdateW(@, Tup(Ev.b), Lm(Ev.wt))]
+  /\ gh' = [gh EXCEPT ![Ev.id] = [@ EXCEPT !.truth = (Ev.x :> W!WAdd(WGet(@, Ev.x), Lm(Ev.wt))) @@ @,
+                                            !.bk = (Ev.x :> Tup(Ev.b)) @@ @]]
+  /\ LET n == obj'[Ev.id] IN
+     On("C08") => /\ Lm(Ev.est) = EstimateW(n, Tup(Ev.b))
+                  /\ W!WLeq(gh'[Ev.id].truth[Ev.x], Lm(Ev.est))
+                  /\ W!WLeq(Lm(Ev.est), n.total)
+                  /\ Lm(Ev.tot) = n.total
+
+TrWMerge ==
+  /\ IsEv("WMerge")
+  /\ Compatible(obj[Ev.id], obj[Ev.src])
+  /\ obj' = [obj EXCEPT ![Ev.id] = MergeW(@, obj[Ev.src])]
+  /\ gh' = [gh EXCEPT ![Ev.id] =
+              [truth |-> [x \in (DOMAIN @.truth) \cup (DOMAIN gh[Ev.src].truth) |->
+                            W!WAdd(WGet(@.truth, x), WGet(gh[Ev.src].truth, x))],
+               bk |-> gh[Ev.src].bk @@ @.bk]]
+  /\ On("C08") => Lm(Ev.tot) = obj'[Ev.id].total
+
+TrWHalve ==
+  /\ IsEv("WHalve")
+  /\ obj' = [obj EXCEPT ![Ev.id] = HalveW(@)]
+  /\ gh' = [gh EXCEPT ![Ev.id] = [@ EXCEPT !.truth = [x \in DOMAIN @ |-> W!WHalf(@[x])]]]
+  /\ On("C08") => Lm(Ev.tot) = obj'[Ev.id].total
+
+TrWChk ==
+  /\ IsEv("WChk")
+  /\ LET st == obj[Ev.id]  g == gh[Ev.id] IN
+     On("C08") =>
+       /\ [i \in 1..Len(Ev.table) |-> Lm(Ev.table[i])] = [i \in 1..(st.d * st.w) |-> st.tab[i - 1]]
+       /\ Lm(Ev.tot) = st.total
+       /\ \A k \in 1..Len(Ev.q) :
+            LET q == Ev.q[k]  e == EstimateW(st, Tup(q.b)) IN
+            /\ Lm(q.est) = e /\ Lm(q.lb) = e
+            /\ W!WLeq(WGet(g.truth, q.x), e)
+            /\ W!WLeq(e, st.total)
+            /\ W!WLeq(e, Lm(q.ub))
+  /\ (On("C12") /\ "img" \in DOMAIN Ev) =>
+        [i \in 1..Len(Ev.img) |-> Ev.img[i]] = EncCMW(obj[Ev.id], [i \in 1..2 |-> Ev.sh[i]])
+  /\ UNCHANGED <<obj, gh>>
+
 TrPanic == IsEv("Panic") /\ FALSE /\ UNCHANGED <<obj, gh>>
 
-TNext == TrRun \/ TrNew \/ TrUpd \/ TrMerge \/ TrHalve \/ TrDecay \/ TrChk \/ TrRT \/ TrPanic
+TNext == TrRun \/ TrNew \/ TrUpd \/ TrMerge \/ TrHalve \/ TrDecay \/ TrChk \/ TrRT \/ TrMergeTry
+         \/ TrWNew \/ TrWUpd \/ TrWMerge \/ TrWHalve \/ TrWChk \/ TrPanic
 TSpec == TInit /\ [][TNext]_tvars
 
 Accepted ==
